@@ -101,7 +101,7 @@ def step(cr, cands, cap, tally, fairness):
     return fails
 
 
-BASE4 = [('a', 'label'), ('label', 'b'), ('z', 'label'), ('user', 'item')]
+BASE4 = [('a AND b', 'c'), ('a', 'b AND c'), ('z', 'label'), ('user', 'item')]   # the first two differ only in where the separator of derived names falls
 SUBLISTS = [tuple(BASE4[i] for i in range(4) if mask >> i & 1) for mask in range(1, 16)]
 DUPLISTS = [
     (('a', 'a'), ('a', 'b'), ('b', 'b'), ('a', 'a'), ('b', 'b')),   # the pairwise-mode shape: diagonal listed twice
@@ -166,6 +166,7 @@ def _job(job):
         _e2e_growing(st)
         _e2e_prior(st)
         _big_list(st)
+        _two_files(st)
     elif kind == 'e2e_task':
         return _e2e_task(job[1])
     return st
@@ -349,6 +350,62 @@ def _big_list(st):
     cr.GLOBAL_PRIOR_COMB_COUNTS.clear()
 
 
+def _two_files(st):
+    """(c5) two input files streamed one after the other in one run (estimate_importances_minibatches is called once per file): the counter is per run, not per file"""
+    import os
+    from mc import harness
+    from mc.common import scratch_dir, rm_scratch
+    from mc.checks.c08 import render
+    cr = _cr()
+    d = scratch_dir('c07f')
+    try:
+        paths = []
+        for i, kinds in enumerate(('gggggg', 'gggg', 'gggggggg')):
+            p_ = os.path.join(d, f'part{i}.csv')
+            with open(p_, 'w') as f:
+                f.write(render(tuple(kinds), 'few'))
+            paths.append(p_)
+        for cap in (1, 2):
+            harness.reset_state()
+            args = harness.make_args(data_source='csv-raw', minibatch_size=2, subsampling=1, heuristic='MI-numba-randomized', combination_number_upper_bound=cap, target_ranking_only='True')
+            spy = []
+            orig = cr.prior_combinations_sample
+
+            def rec(combs, a):
+                out = orig(combs, a)
+                spy.extend(out)
+                return out
+
+            cr.prior_combinations_sample = rec
+            fails = []
+            try:
+                with harness.in_dir(d):
+                    for p_ in paths:
+                        ok, r = safe(cr.estimate_importances_minibatches, p_, ['f1', 'f2', 'label'], None, set(), args=args, data_encoding='utf-8', cpu_pool=harness.InlinePool(), delimiter=',', logger=harness.RecLogger())
+                        st.count('evaluations')
+                        st.count('transitions')
+                        st.count('traces_validated')
+                        if not ok:
+                            fails.append(f'exception {r}')
+                            break
+                        got = {k: v for k, v in dict(r[7]).items() if v}
+                        exp = dict(Counter(spy))
+                        if got != exp:
+                            fails.append(f'after file {os.path.basename(p_)}: reported counts {got} != selections made so far in this run {exp}')
+                            break
+                        if max(exp.values()) - min(list(exp.values()) + [0] * (3 - len(exp))) > 1:
+                            fails.append(f'after file {os.path.basename(p_)}: unfair selections {exp}')
+                            break
+            finally:
+                cr.prior_combinations_sample = orig
+            st.count('states', 3)
+            if fails:
+                st.violation({'kind': 'two_files', 'cap': cap}, '; '.join(fails), {'family': 'two_files', 'fail': fails[0][:30]})
+    finally:
+        rm_scratch(d)
+        harness.reset_state()
+
+
 def _e2e_task(job):
     """(c2) the complete ranking task on files with a trailing partial batch (> 1024 rows): combination_estimation_counts.json and the copy returned by
     estimate_importances_minibatches must equal the number of batches (including the tail batch) in which each candidate pair was evaluated"""
@@ -421,14 +478,20 @@ def run(ctx):
 
 def eval_case(case):
     """Replay one event history (family inferred from the events' shape) or an e2e configuration."""
+    if case.get('kind') == 'two_files':
+        st = Stats()
+        _two_files(st)
+        return [v['what'] for v in st.violations if v['case']['cap'] == case['cap']]
     if case.get('kind') == 'big_list':
         st = Stats()
         _big_list(st)
+        _two_files(st)
         return [v['what'] for v in st.violations if v['case']['cap'] == case['cap']]
     if case.get('kind') == 'e2e_prior':
         st = Stats()
         _e2e_prior(st)
         _big_list(st)
+        _two_files(st)
         return [v['what'] for v in st.violations if v['case']['cap'] == case['cap']]
     if case.get('kind') == 'e2e_growing':
         st = Stats()
